@@ -3,10 +3,9 @@ package c09
 import (
 	"fmt"
 	"os"
-		"strings"
+	"strings"
 
 	"pgregory.net/rapid"
-
 
 	"verif/harness/dagen"
 	"verif/harness/pbt"
@@ -46,12 +45,12 @@ func genMulti(t *rapid.T) duo.Case {
 	}
 	m := rapid.IntRange(2, 24).Draw(t, "nops")
 	for j := 0; j < m; j++ {
-		k := rapid.SampledFrom([]string{"deliver", "deliver", "deliver", "intrude", "intrude", "qpause", "qunpause", "sgate", "qgate", "tick"}).Draw(t, "opk")
+		k := rapid.SampledFrom([]string{"deliver", "deliver", "deliver", "intrude", "intrude", "behind", "qpause", "qunpause", "sgate", "qgate", "tick"}).Draw(t, "opk")
 		op := duo.Op{K: k}
 		switch k {
 		case "deliver":
 			op.N = rapid.IntRange(0, 3).Draw(t, "link")
-		case "intrude":
+		case "intrude", "behind":
 			x := &duo.Intr{Status: rapid.SampledFrom([]int{10, 14, 15, 20, 21, 30, 32, 34}).Draw(t, "status"), Ext: rapid.SampledFrom([]string{"", duo.ExtTriggerError, duo.ExtTriggerUpdate, "other"}).Draw(t, "ext"), NMeta: rapid.IntRange(0, 3).Draw(t, "nmeta")}
 			x.NBlocks = rapid.IntRange(0, x.NMeta).Draw(t, "nblocks")
 			for i := 0; i < n; i++ {
@@ -127,6 +126,9 @@ func judgeMulti(c duo.Case) *pbt.Verdict {
 	_ = third
 	if n := got.BlockHookPeers[third]; n > 0 {
 		return v.Failf("the requestor's block hook was invoked %d times with the third peer as sender", n)
+	}
+	if n := got.ThirdAsGenuine; n > 0 {
+		return v.Failf("the requestor's response hook was handed the third peer's response as if another peer had sent it (%d calls) for a request still in progress", n)
 	}
 	if n := got.BlockHookSawThird; n > 0 {
 		return v.Failf("the requestor's block hook was handed response data that the third peer sent (%d calls)", n)
